@@ -147,7 +147,7 @@ def gen_hostile(rnd, i):
             s = rnd.choice([b"http://", b"://", b"a://", b"1://", b"[", b"[::1]:", b"h:"]) + s
     else:
         n = rnd.choice([1000, 1094, 1095, 1096, 1100, 5000, 60000, 300000, 2000000])
-        kind = rnd.choice(["path", "host", "scheme", "digits", "bracket", "colons", "query", "noslash"])
+        kind = rnd.choice(["path", "host", "scheme", "digits", "bracket", "colons", "query", "noslash", "digitscheme", "labels", "labels"])
         if kind == "path":
             s = b"127.0.0.1:80/" + b"a" * n
         elif kind == "host":
@@ -160,13 +160,23 @@ def gen_hostile(rnd, i):
             s = b"[" + b":" * n + b"]:80"
         elif kind == "colons":
             s = b":" * n
+        elif kind == "digitscheme":
+            # a numeric scheme is a service: megabytes of digits in front of "://" (every part of the URI is caller-controlled text)
+            s = b"7" * n + rnd.choice([b"://localhost", b"://[::1]/index.html", b"abc://localhost", b"://127.0.0.1:80"])
+        elif kind == "labels":
+            # host names that are ALMOST well-formed: long runs of label characters followed by something that is not — the shape on
+            # which a backtracking matcher with nested repetition takes exponential time
+            k = rnd.choice([24, 28, 32, 40, 48, 64, 200])
+            run = rnd.choice([b"a" * k, b"a1_" * (k // 3), b"intranet-fileserver-building-7-floor-3-room-12-printer-queue"])
+            tail = rnd.choice([b"!", b" ", b"\xc3\xa4", b"..example.com", b"-", b"!:8080/index.html"])
+            s = rnd.choice([b"", b"http://"]) + run + tail
         elif kind == "query":
             s = b"http://127.0.0.1/?" + b"q=http://x/&" * (n // 12)
         else:
             s = b"a.b://" + b"c" * n
     if rnd.random() < 0.25:
         # the host argument has no length limit of its own (it is only handed to getaddrinfo): megabyte hosts of every shape
-        hs = rnd.choice([b"127.0.0.1", b"::1", b"localhost", b"", b"h" * 2000, b"1" * 300000, b"[" + b"a" * 300000 + b"]", b"[" * 1000000,
+        hs = rnd.choice([b"127.0.0.1", b"::1", b"localhost", b"", b"h" * 2000, b"a" * 40 + b"!", b"a" * 64 + b" ", b"label-" * 8 + b".." + b"example.com", b"1" * 300000, b"[" + b"a" * 300000 + b"]", b"[" * 1000000,
                          b"[" + b":" * 200000, b"h" * 2000000, b"." * 500000, b"[::1]" + b" " * 400000, b"%" * 300000, b"a." * 200000])
         sv = rnd.choice([b"80", b"", b"http", b"1" * 33, b"1" * 200000, b" 80", b"+80", b"-80", b"80 ", b"0x50", b"8\x000", b"99999\x00x", s[:40]])
         return ("P", hs, sv), {"valid": None}
@@ -498,6 +508,27 @@ def run_c13(tier, seed):
             else:
                 lines.append("%s %s %s" % (tag, hx(h.encode()), hx((" +" + str(p)).encode())))
             truth[tag] = (10 if v6 else 2, ip, p, scope)
+    # the same IPv4 endpoint in its IPv4-mapped IPv6 form (what a dual-stack listener reports) and in the deprecated IPv4-compatible
+    # form: different families never compare equal, whatever the bytes say, and the order / hash stay lawful across them
+    for j, ip4 in enumerate(base4[:4]):
+        p = rnd.choice([80, 554, 65535, rnd.randrange(1, 65536)])
+        h4 = socket.inet_ntop(socket.AF_INET, ip4)
+        for form, prefix in (("mapped", b"\x00" * 10 + b"\xff\xff"), ("compat", b"\x00" * 12)):
+            ip6 = prefix + ip4
+            tag4, tag6 = "parsed%d" % k, "parsed%d" % (k + 1)
+            k += 2
+            lines.append("%s %s" % (tag4, hx((h4 + ":" + str(p)).encode())))
+            lines.append("%s %s" % (tag6, hx(("[" + socket.inet_ntop(socket.AF_INET6, ip6) + "]:" + str(p)).encode())))
+            truth[tag4] = (2, ip4, p, 0)
+            truth[tag6] = (10, ip6, p, 0)
+    # one link-local host and port reached through different interfaces: endpoints that differ in the scope id ONLY
+    ll = b"\xfe\x80" + bytes(6) + bytes(rnd.randrange(256) for _ in range(8))
+    pll = rnd.choice([554, 5060, rnd.randrange(1, 65536)])
+    for scope in ("lo", "eth0", "77", "1000097"):
+        tag = "parsed%d" % k
+        k += 1
+        lines.append("%s %s" % (tag, hx(("[" + text_v6(ll, scope) + "]:" + str(pll)).encode())))
+        truth[tag] = (10, ll, pll, scope)
     for p in (0, 80, 8080, 65535):
         lines.append("port%d %s" % (p, hx(str(p).encode())))
         lines.append("parsedport%d %s" % (p, hx(("127.0.0.1:%d" % p).encode())))
